@@ -174,7 +174,7 @@ def effects_obligation(prop):
     from . import effects_baseline
 
     def run(ctx):
-        entries = ENTRIES[prop]
+        entries = ENTRIES[prop] + [w for w in WRAPPERS.get(prop, []) if w not in ENTRIES[prop]]  # the public wrappers own their arguments too
         present = [q for q in entries if ctx.prog.has(q)]
         top = [q for q in entries if q.count(".") <= 2]
         missing_top = [q for q in top if not ctx.prog.has(q)]
@@ -254,6 +254,94 @@ WRAPPERS = {
     "C19": ["ribana.trace_chains"],
     "C20": ["memthick.measure_thickness_cpu", "memthick.measure_membrane_thickness"],
 }
+
+
+def options_obligation(prop):
+    """cross-cutting obligation: a keyword option of a library call that the engine's model of the call never looked at (it is not part of
+    the model and does not appear in the result's term) may change what the call does; such a call is not decided.  Options the models
+    leave alone on purpose are listed in sa/interp.py (IGNORED_OPTIONS_OK), confirmed on the clean tree."""
+    from sa import interp as _interp
+    from sa.report import Obligation
+
+    def run(ctx):
+        its = _interp.REGISTRY.get(id(ctx.prog), [])
+        seen, n, first = set(), 0, None
+        for it in its:
+            for e in it.events:
+                if e.kind != "ignored-option":
+                    continue
+                k = (e.name, e.extra["option"], id(e.node))
+                if k in seen:
+                    continue
+                seen.add(k)
+                n += 1
+                if (e.name, e.extra["option"]) not in _interp.IGNORED_OPTIONS_OK and first is None:
+                    first = e
+        ctx.count(n, {"library calls with an option outside the model": n})
+        if first is not None:
+            raise Unsupported(f"the option {first.extra['option']}= of {first.name.replace('method:', '.')} (in {first.fn}) is not interpreted by the model of "
+                              "this call: what it changes is not decided", first.node)
+
+    return Obligation("OX.K", "library options: every keyword option of a library call on the interpreted paths is part of the call's model", run, floor=0)
+
+
+def overrides_obligation(prop):
+    """cross-cutting obligation: the property is stated for particle lists of every class.  A subclass that overrides one of the
+    methods the property's rules analyse puts new code behind the property for its own lists; the override is interpreted next to the
+    base method on the same symbolic list and must leave the particle table exactly as the base method does (what else it keeps in
+    attributes of its own is its business)."""
+    from sa.report import Obligation
+    from .effects_entries import ENTRIES
+    from .overrides_baseline import OVERRIDES
+
+    def run(ctx):
+        prog = ctx.prog
+        classes = [f"{mn}.{q}" for mn, mod in prog.modules.items() for q, n in mod.defs.items() if isinstance(n, ast.ClassDef)]
+        subs = {}
+        for c in classes:
+            for b in prog.mro(c)[1:]:
+                subs.setdefault(b, []).append(c)
+        entries = ENTRIES[prop] + [w for w in WRAPPERS.get(prop, []) if w not in ENTRIES[prop]]
+        n = 0
+        for q in entries:
+            parts = q.split(".")
+            if len(parts) != 3 or not prog.has(q):
+                continue
+            cls, meth = ".".join(parts[:2]), parts[2]
+            for sc in subs.get(cls, []):
+                n += 1
+                oq = f"{sc}.{meth}"
+                if not prog.has(oq) or oq in entries or (oq, q) in OVERRIDES:
+                    continue
+                mo, fo = prog.func(oq)
+                mb, fb = prog.func(q)
+                names = [a.arg for a in fb.args.posonlyargs + fb.args.args][1:]
+                onames = [a.arg for a in fo.args.posonlyargs + fo.args.args][1:]
+                if names != onames[:len(names)]:
+                    raise Unsupported(f"{oq} overrides {q} with another parameter list: not compared", fo)
+                tables = []
+                for qq, cc in ((q, sc), (oq, sc)):
+                    it = Interp(prog)
+                    me = motl_obj(prog, cls=cc)
+                    it.run(qq, [P(a_) for a_ in names], {}, self_obj=me)
+                    df = me.attrs.get("df")
+                    if not isinstance(df, Frame):
+                        raise Unsupported(f"{qq} leaves no particle table in self.df", fo)
+                    tables.append(df)
+                base_df, over_df = tables
+                ctx.count(1, {"override": oq, "of": q})
+                diff = [c_ for c_ in base_df.cols if over_df.cols.get(c_) is None
+                        or not (over_df.cols[c_] == base_df.cols[c_] or tm.equivalent(over_df.cols[c_], base_df.cols[c_], n=16, seed_tag=oq + c_))]
+                if diff or not over_df.space.same(base_df.space):
+                    c0 = diff[0] if diff else None
+                    ctx.finding(oq, f"override of {q}", f"{sc.split('.')[-1]}.{meth} overrides a method the property rests on and leaves another particle "
+                                f"table than {q} does for the same list" + (f": field {c0} becomes {tm.show(over_df.cols.get(c0))[:100] if over_df.cols.get(c0) is not None else 'absent'} "
+                                                                          f"instead of {tm.show(base_df.cols[c0])[:80]}" + (f" (also {diff[1:4]})" if len(diff) > 1 else "")
+                                                                          if diff else ": the rows are not the same particles in the same order"),
+                                fo, mo)
+        ctx.count(n, {"(entry method, subclass) pairs examined": n})
+
+    return Obligation("OX.O", "subclasses: an override of a method the property rests on leaves the particle table as the base method does", run, floor=0)
 
 
 def plumbing_obligation(prop):
@@ -384,6 +472,23 @@ def labels_obligation(prop, floor=0):
                 ctx.finding(e.fn, e.node, "the result of a floating-point computation is stored into an array created with zeros_like / empty_like of the "
                             "caller's own array: the array inherits the caller's element type, so integer input (axis-aligned normals, voxel "
                             "positions) truncates every stored value", e.node, m)
+        # `value in column`: pandas answers for the row labels
+        for it in its:
+            for e in it.events:
+                if e.kind != "typing" or e.name != "in-series":
+                    continue
+                k = (e.fn, id(e.node), "in-series")
+                if k in seen:
+                    continue
+                seen.add(k)
+                try:
+                    m, _ = ctx.prog.func(e.fn)
+                except Exception:  # noqa
+                    m = None
+                ctx.count(1, None)
+                ctx.finding(e.fn, e.node, "`value in <column>` on a pandas column asks whether the value is one of the column's row labels, not whether it "
+                            "occurs among its values (that is `value in column.values` / `column.isin`): for a freshly numbered table every value "
+                            "below the row count 'occurs', larger ones and labels removed by an earlier selection do not", e.node, m)
         ctx.count(len(its), None)
 
     return Obligation("OX.L", "row pairing: arithmetic and column assignment between labelled tables/columns pair the same particles (E17 labels, "
